@@ -382,6 +382,38 @@ def semantic_job(task, size):
                exact_floats=ev.exact_floats, timeout_s=ev.timeout_s)
 
 
+def melody_optional_job(size, which):
+    """melody.evaluate with its optional positional annotations: est_voicing and / or ref_reward (arrays in [0, 1]); `which`
+    is a pair of flags (est_voicing given, ref_reward given)"""
+    ev0 = E.by_task('melody')
+
+    def build(ctx, size_=None):
+        inp = ev0.build(ctx, size)
+        rt, rf, et, ef = inp['args']
+
+        def unit(tag, k):
+            vs = []
+            for i in range(k):
+                v = ctx.real('%s%d' % (tag, i))
+                ctx.assume(v >= 0)
+                ctx.assume(v <= 1)
+                vs.append(v)
+            return S.array(vs)
+        ev_ = unit('estv', len(et)) if which[0] else None
+        rr_ = unit('refr', len(rt)) if which[1] else None
+        inp['args'] = (rt, rf, et, ef, ev_, rr_)
+        return inp
+    ev = E.Ev('melody', MEL.evaluate, build, ev0.sizes, ev0.funcs + ['melody.to_cent_voicing'], exact_floats=ev0.exact_floats, timeout_s=ev0.timeout_s)
+    old = E.EVALS
+    try:
+        E.EVALS = [ev]
+        j = semantic_job('melody', size)
+    finally:
+        E.EVALS = old
+    j.name = 'semantic:melody.evaluate[%s,est_voicing=%s,ref_reward=%s]' % ('x'.join(map(str, size)), 'given' if which[0] else 'None', 'given' if which[1] else 'None')
+    return j
+
+
 def key_semantic_job(k):
     ev = E.by_task('key')
 
@@ -423,4 +455,8 @@ def jobs(tier):
         for size in sizes:
             js.append(semantic_job(task, size))
     js.append(key_semantic_job(6 if q else len(T.KEY_STRINGS)))
+    for which in ([(False, True), (True, True)] if q else [(False, True), (True, False), (True, True)]):
+        js.append(melody_optional_job((1, 0), which))
+    if not q:
+        js.append(melody_optional_job((2, 0), (False, True)))
     return js
